@@ -74,7 +74,8 @@ def main():
     dst = os.path.join(VERIF, 'seeded', name)
     os.makedirs(dst, exist_ok=True)
     for f in ('patch.diff', 'demo.py'):
-        shutil.copy(os.path.join(work, f), os.path.join(dst, f))
+        if os.path.realpath(os.path.join(work, f)) != os.path.realpath(os.path.join(dst, f)):
+            shutil.copy(os.path.join(work, f), os.path.join(dst, f))
     meta = {}
     try:
         meta = json.load(open(os.path.join(work, 'meta.json')))
